@@ -366,6 +366,13 @@ func (g *docGen) step(depth int) any {
 		return g.contentStep("trigger")
 	case r == 9 && depth < 3:
 		p := [][2]any{{[]string{"group", "group", "group"}[g.pick(3)], g.str("label")}}
+		if g.pick(5) == 0 {
+			// `group: ~` - a group without a name of its own; a `label` / `name` written next to it stays what it is
+			p[0][1] = nil
+			if g.pick(3) > 0 {
+				p = append(p, [2]any{[]string{"label", "name"}[g.pick(2)], g.str("label")})
+			}
+		}
 		if g.pick(2) == 0 {
 			p = append(p, [2]any{"key", g.str("stepkey")})
 		}
@@ -379,7 +386,11 @@ func (g *docGen) step(depth int) any {
 			p = append(p, [2]any{"steps", g.steps(depth+1, 1+g.pick(3))})
 		}
 		for _, k := range []string{"id", "identifier", "label", "name"} {
-			if g.pick(5) == 0 {
+			have := false
+			for _, q := range p {
+				have = have || q[0] == k
+			}
+			if !have && g.pick(5) == 0 {
 				p = append(p, [2]any{k, g.str("stepkey")})
 			}
 		}
